@@ -44,7 +44,7 @@ class Contract(object):
     def __init__(self, key, sig=None, returns=None, requires=(), ensures=(), raises=None, modifies=None,
                  loops=None, inline=False, interface=False, pure=False, self_type=None, closure=None,
                  properties=(), notes='', reads_globals=None, ctor_of=None, allocates=True, exact_self=False,
-                 raises_only=None, ghost_pre=None, verify=True, local_types=None, dynamic_calls=None):
+                 raises_only=None, ghost_pre=None, verify=True, local_types=None, dynamic_calls=None, call_asserts=None):
         self.key = key
         self.sig = dict(sig or {})              # param name -> type string
         self.returns = returns                  # type string or None
@@ -65,6 +65,7 @@ class Contract(object):
         self.raises_only = raises_only          # if set: list of exception class names that may escape (C15)
         self.ghost_pre = ghost_pre
         self.local_types = dict(local_types or {})   # local name -> type of the empty list / dict literal bound to it
+        self.call_asserts = dict(call_asserts or {})     # callee source text -> [(name, expression over locals, arg(i), kwarg(n))]
         self.dynamic_calls = dict(dynamic_calls or {})   # source text of a callee expression -> {'contract': key, 'new': Class}
         self.verify = verify                    # False: assumed at call sites only (listed as an assumption)
 
@@ -259,7 +260,7 @@ class Verifier(ExprMixin, CallMixin, BuiltinMixin, StmtMixin, Executor):
                 raise OutOfReach('old() outside a postcondition')
             st0 = pre.copy()
             st0.locals = dict(st.locals)
-            if pre.ghost.get('loop_entry'):
+            if pre.ghost.get('loop_entry') or pre.ghost.get('fn_entry'):
                 # loop invariant: old(x) of a local reassigned in the loop is its value at loop entry
                 st0.locals.update(pre.locals)
             return self.sev(node.args[0], st0)
@@ -430,6 +431,10 @@ class Verifier(ExprMixin, CallMixin, BuiltinMixin, StmtMixin, Executor):
         for i, r in enumerate(c.requires):
             st = st.assume(self.spec_bool(r, st, spec_env))
         pre = st.copy()
+        pre.locals = dict(spec_env)
+        pre.ghost = dict(pre.ghost)
+        pre.ghost['fn_entry'] = True          # old(<parameter>) is the value at entry even after the body reassigns it
+        self._verify_pre = pre
         if not self.feasible(st):
             raise OutOfReach('precondition of %s is unsatisfiable (vacuous contract)' % c.key)
         st1 = st.copy()
